@@ -234,7 +234,8 @@ M("C02", "control-process-slice-clamp", [(RU, "        if stop < start:\n       
 
 # ---- C03
 M("C03", "write-no-seek-to-end", [(RC, "    // always write from the end\n    fseek(mFptr, 0, SEEK_END);\n", "    // always write from the end\n")],
-  "equivalent through sfile: update_row_count has already moved to the end before every appending write", control=True)
+  "harmless through sfile (update_row_count has already moved to the end before every appending write) but a raw Recfile re-opened "
+  "in mode 'r+' overwrites the rows from the start; a control until the header-less histories of round 5 existed")
 M("C03", "no-seek-to-end-anywhere", [(RC, "    // always write from the end\n    fseek(mFptr, 0, SEEK_END);\n", "    // always write from the end\n"),
                                      (RC, "    // seek back to the end of the file\n    fseek(mFptr, 0, SEEK_END);\n", "")],
   "after the SIZE line is rewritten the rows are written right behind it, over the header")
